@@ -625,8 +625,10 @@ func (ex *Exec) external(v ssa.Value, callee *ssa.Function, cc *ssa.CallCommon, 
 		set(fmt.Sprintf("(ite (bvsge %s (_ bv0 64)) (_ +oo 11 53) (_ -oo 11 53))", args[0].T))
 		return
 	case "errors.New", "fmt.Errorf":
+		// a new error value: a freshly allocated object, distinct from every error that exists already
+		r := ex.newRef("err")
 		ex.freshVal(v, "err")
-		vc.assume(fmt.Sprintf("(not (= (itag %s) 0))", ex.vals[v].T))
+		vc.assume(fmt.Sprintf("(and (not (= (itag %s) 0)) (= (ipay %s) %s))", ex.vals[v].T, ex.vals[v].T, r))
 		return
 	}
 	pkgPath := ""
@@ -806,7 +808,7 @@ func (ex *Exec) appendCall(v ssa.Value, cc *ssa.CallCommon) {
 func (ex *Exec) isTypeInvOwner(of string) bool {
 	name := ex.vc.fnName()
 	for _, ti := range ex.vc.ctx.cf.TypeInvs {
-		if ti.Stable || (of != "" && ti.Type != of) {
+		if ti.Stable || ti.WritersOnly || (of != "" && ti.Type != of) {
 			continue
 		}
 		for _, o := range ti.Owners {
